@@ -163,8 +163,9 @@ func checkCallbackLast(res *Result, p *Pub, E *Effects, rule string, structName 
 			// result returned directly
 			retOK := false
 			if c, ok := ci.Instr.(*ssa.Call); ok {
-				for _, r := range *c.Referrers() {
-					if rt, ok := r.(*ssa.Return); ok && rt.Results[0] == ssa.Value(c) {
+				ffc := computeFacts(fn)
+				for _, rt := range returnsIn(fn) {
+					if ffc.resolve(rt, rt.Results[0]) == ssa.Value(c) {
 						retOK = true
 					}
 				}
